@@ -143,6 +143,68 @@ def rule_items_are_the_cells_of_the_sheet(ctx):
     rule_cell_values(ctx, "O4.7")
 
 
+SOURCE_KINDS = [
+    # (label, how the source looks, the name the location must show)
+    ("path", "data/customers.csv", "customers.csv"),
+    ("stream without a name attribute (io.StringIO)", {}, "<io>"),
+    ("stream opened from a path", {"name": "data/customers.csv"}, "customers.csv"),
+    ("stream whose name is None (tempfile.SpooledTemporaryFile)", {"name": None}, "<io>"),
+    ("stream whose name is a file descriptor (os.fdopen, tempfile.TemporaryFile)", {"name": 3}, "<io>"),
+    ("stream whose name is 0 (open(0))", {"name": 0}, "<io>"),
+    ("stream whose name is empty", {"name": ""}, "<io>"),
+    ("stream whose name is bytes (opened with a bytes path)", {"name": b"customers.csv"}, "<io>"),
+]
+
+
+def rule_locations_name_every_kind_of_source(ctx, rule_id="O4.8"):
+    """O4.8: "a data error whose location names the input": whatever the data is read from - a path, or a stream whose
+    ``name`` is a text, missing, None, a file descriptor or bytes - the Reader and the raw readers' Location can be
+    built, copied (errors keep copies) and rendered; a source without a usable name is shown as ``<io>``."""
+    import os
+
+    from ..absint import ClassRef, Undecided
+
+    model = ctx.model
+    ctx.res.minimum(rule_id, 1)
+
+    def basename(interp, args, kwargs):
+        (value,) = args
+        if isinstance(value, (str, bytes)):
+            return os.path.basename(value)
+        interp.raise_("builtins.TypeError", "expected str, bytes or os.PathLike object, not %s" % type(value).__name__)
+
+    def cell(ch):
+        label, shape, shown = ch.choose("source", SOURCE_KINDS)
+        through = ch.choose("through", ["Location", "Reader"])
+        interp = Interp(model, ch, externals={"os.path.basename": basename,
+                                              "attr:io.TextIOWrapper.name": lambda i, a, k: i.raise_("builtins.AttributeError", "name")})
+        world = World(model, interp, ch)
+        source = shape if isinstance(shape, str) else Obj("io.TextIOWrapper", dict(shape), label="stream")
+        key = "%s: %s" % (through, label)
+        try:
+            if through == "Location":
+                location = interp.instantiate(ClassRef(model.cls(LOCATION)), [source], {"has_cell": True})
+            else:
+                cid = world.cid([world.recording_field(0)], [], world.data_format("delimited", header=0))
+                reader = protocol._construct(interp, protocol.READER, [cid, source])
+                location = reader.attrs.get("_location")
+                if not isinstance(location, Obj):
+                    return (key, "Reader has no location", "location shown as %r" % shown)
+            copied = interp.call_function(model.func(LOCATION + ".__copy__"), [location], {}, None)
+            text = interp.call_function(model.func(LOCATION + ".__str__"), [copied], {}, None)
+        except AbsRaise as raised:
+            from ..absint import exc_name
+
+            return (key, "raise " + exc_name(raised.value), "location shown as %r" % shown)
+        parts = fragments(text)
+        first = parts[0] if parts else None
+        rendered = first if isinstance(first, str) else repr(first)
+        ok = isinstance(first, str) and first.startswith(shown + " (")
+        return (key, "location shown as %r" % shown if ok else "location rendered as %r" % (rendered,), "location shown as %r" % shown)
+
+    decide(ctx, rule_id, "Location / Reader over every kind of source name", LOCATION + ".__init__", cell, min_cells=16)
+
+
 def rule_csv_errors_name_their_line(ctx):
     """O10.csv-error (shared with C10/C06): a row the csv reader cannot parse is reported with the number of that line."""
     from .c10 import rule_delimited_error_helper
@@ -150,4 +212,4 @@ def rule_csv_errors_name_their_line(ctx):
     rule_delimited_error_helper(ctx, check_location=True)
 
 
-RULES = [rule_validate_row, rule_cursor, rule_location_copies, rule_raw_rows_dispatch, rule_ods_rows_keep_their_cells, rule_items_are_the_cells_of_the_sheet, rule_csv_errors_name_their_line, rule_module_state]
+RULES = [rule_validate_row, rule_cursor, rule_location_copies, rule_raw_rows_dispatch, rule_ods_rows_keep_their_cells, rule_items_are_the_cells_of_the_sheet, rule_locations_name_every_kind_of_source, rule_csv_errors_name_their_line, rule_module_state]
